@@ -5,6 +5,7 @@ Result: {"steps": [{"rels": [[prop,s,t]...], "fields": {inst: {prop: [targets...
 """
 import gc
 import sys
+import weakref
 
 from harness.core import worker_main
 
@@ -12,6 +13,8 @@ import krrood.verif_hooks as vh
 from krrood.entity_query_language.symbol_graph import SymbolGraph
 from harness.models import sgmodel
 from harness.models.sgmodel import FPerson
+from krrood.entity_query_language.entity import entity, let
+from krrood.entity_query_language.quantify_entity import an
 from test.dataset.university_ontology_like_classes import Company, Person, CEO
 
 FIELD = {"sub": "sub_organization_of"}
@@ -268,7 +271,23 @@ def handle(case):
         run_prefix(case.get("prefix"))
         EVENTS = []
         inst = make_world(model, case.get("world_order"))
-        for st in case["h"]:
+        for k, st in enumerate(case["h"]):
+            if st["f"][0] == "die":
+                # part of the population dies: the references are dropped, the objects reclaimed, the registry swept
+                out = {}
+                refs = [weakref.ref(inst[n]) for n in st["die"]]
+                for n in st["die"]:
+                    del inst[n]
+                gc.collect()
+                if k % 2:
+                    SymbolGraph().remove_dead_instances()
+                else:
+                    list(an(entity(let(sgmodel.Other, []))).evaluate())       # any evaluation sweeps
+                out["still_alive"] = [n for n, r in zip(st["die"], refs) if r() is not None]
+                out["rels"], out["fields"] = observe(model, inst)
+                res["steps"].append(out)
+                res["how"].append("die")
+                continue
             EVENTS.append({"a": "assert", "p": st["f"][0], "s": st["f"][1], "t": st["f"][2]})
             out = {}
             try:
